@@ -107,15 +107,16 @@ var commonLabels = []string{"fin", "entry", "putloop", "msg", "next", "retry", "
 var sharedOperands = []string{"AX,ES:BX", "CX,ES:DI", "SI,msg", "BX,fin", "AX,entry", "SI,strend", "CX,retry", "DI,next", "AX,0", "SI,1", "BX,15", "AL,[SI]", "CX,[SI]", "[0x0ff0],BX", "DX,[0x0ff2]", "ECX,[EBX+16]", "EAX,1", "AX,BX", "ECX,EDX", "BYTE [SI],0", "WORD [0x0ff4],320", "AX,msg+2"}
 
 type progGen struct {
-	nonASCII bool // string literals may contain non-ASCII text (C10 pools only: C19 re-encodes files)
-	names    []string
-	dotted   []string // labels containing '.' or '$'; never used as jump targets
-	mustJump []string // labels that must be the target of at least one jump
-	r        *RNG
-	labels   []string
-	equs     []string
-	used     map[string]bool
-	bits32   bool
+	nonASCII     bool // string literals may contain non-ASCII text (C10 pools only: C19 re-encodes files)
+	names        []string
+	dotted       []string // labels containing '.' or '$'; never used as jump targets
+	mustJump     []string // labels that must be the target of at least one jump
+	caseSiblings []string // labels differing only in case from another name / spelled like a register
+	r            *RNG
+	labels       []string
+	equs         []string
+	used         map[string]bool
+	bits32       bool
 }
 
 func (g *progGen) newName() string {
@@ -316,6 +317,9 @@ func (g *progGen) addr() string {
 var undefinedTargets = []string{"_extfn", "nowhere", "_memcpy", "undefined_lbl"}
 
 func (g *progGen) target() string {
+	if len(g.caseSiblings) > 0 && g.r.Chance(1, 8) {
+		return pick(g.r, g.caseSiblings)
+	}
 	if g.r.Chance(1, 10) {
 		return pick(g.r, undefinedTargets)
 	}
@@ -756,6 +760,23 @@ func genBody(r *RNG, o genOpts) (body []string, hasEqu, hasGlobal bool) {
 			}
 		}
 	}
+	// names that differ only in letter case from another name, and labels spelled like a register or a
+	// mnemonic in lower case: identifiers are case-sensitive, mnemonics and registers are upper-case
+	if len(g.labels) > 0 && r.Chance(1, 5) {
+		base := pick(r, g.labels)
+		var d string
+		switch r.Intn(3) {
+		case 0:
+			d = strings.ToUpper(base)
+		case 1:
+			d = strings.ToUpper(base[:1]) + base[1:]
+		default:
+			d = pick(r, []string{"ax", "si", "eax", "mov", "hlt", "db", "Fin", "Msg"})
+		}
+		if d != base && !containsStr(g.labels, d) && !containsStr(g.caseSiblings, d) {
+			g.caseSiblings = append(g.caseSiblings, d)
+		}
+	}
 	// GLOBAL declarations: a subset of labels in shuffled order + undefined names + duplicates
 	var globals []string
 	if o.NGlobal > 0 && len(g.labels) > 0 {
@@ -816,7 +837,7 @@ func genBody(r *RNG, o genOpts) (body []string, hasEqu, hasGlobal bool) {
 		body = append(body, "[SECTION .text]")
 	}
 	// Statements with labels spread among them; with Ties several labels share an address.
-	pending := append(append([]string(nil), g.labels...), g.dotted...)
+	pending := append(append(append([]string(nil), g.labels...), g.dotted...), g.caseSiblings...)
 	for i := len(pending) - 1; i > 0; i-- { // dotted labels anywhere among the others
 		if j := r.Intn(i + 1); len(g.dotted) > 0 {
 			pending[i], pending[j] = pending[j], pending[i]
@@ -1052,4 +1073,13 @@ func genProgram(r *RNG, name string, twin bool, nonASCII bool) []*Program {
 		out = append(out, q)
 	}
 	return out
+}
+
+func containsStr(xs []string, x string) bool {
+	for _, y := range xs {
+		if y == x {
+			return true
+		}
+	}
+	return false
 }
